@@ -192,6 +192,33 @@ pub fn run(ctx: &mut Ctx) {
         ctx.sample("shared", || pkt_json(&p));
         check_one(ctx, "shared", idx, &p);
     }
+    // many distinct names, then repetitions of early, middle and late ones: the table of earlier names has no size at which
+    // it may stop learning (all of this stays far below offset 16383)
+    for idx in 0..if ctx.slow_tool { 2 } else { tier.pick(400u64, 20_000u64) } {
+        if !ctx.take("many-names", idx) {
+            continue;
+        }
+        if ctx.stop("many-names") {
+            break;
+        }
+        let mut r = ctx.rng("many-names", idx);
+        let n = *r.pick(&[10usize, 31, 32, 33, 63, 64, 65, 100, 127, 128, 129, 200, 255, 256, 257, 400]);
+        let l = |s: &str| s.as_bytes().to_vec();
+        let zone: NameM = if idx % 2 == 0 { vec![l("example"), l("com")] } else { vec![l("z")] };
+        let mut p = PktM { id: idx as u16, flags: 0x8400, ..Default::default() };
+        p.qs.push(QSem { name: zone.clone(), qtype: 255, qclass: 1, unicast: false });
+        let host = |i: usize| -> NameM { let mut v = vec![format!("h{}", i).into_bytes()]; v.extend(zone.iter().cloned()); v };
+        for i in 0..n {
+            p.secs[0].push(RecSem { name: host(i), rtype: 1, class: 1, flush: false, ttl: 60, rd: Rd::Fields(vec![F::Int(i as u64)]) });
+        }
+        for k in [0usize, n / 2, n.saturating_sub(2), n - 1] {
+            // as owner, and as the name inside an RFC 1035 RDATA (PTR)
+            p.secs[(k % 2) + 1].push(RecSem { name: host(k), rtype: 16, class: 1, flush: false, ttl: 60, rd: Rd::Fields(vec![F::List(vec![b"x".to_vec()])]) });
+            p.secs[2].push(RecSem { name: zone.clone(), rtype: 12, class: 1, flush: false, ttl: 60, rd: Rd::Fields(vec![F::Name(host(k))]) });
+        }
+        ctx.add("packets_with_many_distinct_names", 1);
+        check_one(ctx, "many-names", idx, &p);
+    }
     if !ctx.slow_tool {
         let reps = tier.pick(3u64, 40u64);
         for rep in 0..reps {
